@@ -32,6 +32,8 @@ FIXED = [
  ("C18", "c09fcf1", "setting a reference field (or a nested hybrid field holding references) from plain data or None left the previously assigned dressed object as the attribute value", "corpus/C18/ref_then_data.json"),
  ("C10", "71cc20e", "Struct._update byte-copied a same-class struct that holds references: the assigned element's references pointed to unrelated bytes", "corpus/C18/nested_with_ref_assign.json"),
  ("C17", "173b5fc", "xobject arrays passed as pointer-to-scalar kernel arguments were cast to '<ArrayClassName>*' (cffi: undefined type name)", "corpus/C17/xobject_array_as_pointer.json"),
+ ("C10", "20494f4", "a whole-array update that moves items of dynamic size left the updating handle's cached item offsets stale (reads returned other items' bytes)", "corpus/C10/root_update_moves_items.json"),
+ ("C09", "20494f4", "a copy of an array of dynamic items shared the source's Python-side item-offset cache (a live view of the source buffer's table when the source is a view)", "corpus/C09/copy_shares_offset_cache.json"),
 ]
 _STALE = ("a whole-array update that moves the items of a root array of dynamically sized items, made through a view (_from_buffer) "
           "of that array, leaves the constructor handle's cached item offsets stale: reads through the old handle return other items' bytes "
